@@ -13,6 +13,7 @@ import (
 	"path/filepath"
 	"runtime"
 	"strings"
+	"sync"
 	"time"
 
 	"github.com/semafind/semadb/cluster"
@@ -39,6 +40,7 @@ type Program struct {
 	Threads []Thread `json:"threads"`
 	Backups bool     `json:"backups"`
 	Preload []string `json:"preload,omitempty"` // shards loaded (and idle) before the threads start
+	Free    bool     `json:"free,omitempty"`    // race pass: plain goroutines, no scheduler, real locks and a real (short) idle timer
 }
 
 func scratch() string {
@@ -76,7 +78,10 @@ func run(raw json.RawMessage, prefix []string) (*vsched.Trace, []schedlib.V, str
 	defer os.RemoveAll(root)
 	baseline := runtime.NumGoroutine()
 	var viols []schedlib.V
+	var hmu sync.Mutex // harness bookkeeping (uncontended under the scheduler; needed by the free-running race pass)
 	fail := func(sig, format string, a ...any) {
+		hmu.Lock()
+		defer hmu.Unlock()
 		if len(viols) < 8 {
 			viols = append(viols, schedlib.V{Sig: sig, Detail: fmt.Sprintf(format, a...)})
 		}
@@ -86,12 +91,21 @@ func run(raw json.RawMessage, prefix []string) (*vsched.Trace, []schedlib.V, str
 		plan.ShardBackupFrequency, plan.ShardBackupCount = 1, 2
 	}
 	col := models.Collection{UserId: "alice", Id: "col", IndexSchema: models.IndexSchema{}, UserPlan: plan}
-	sm := cluster.NewShardManager(cluster.ShardManagerConfig{RootDir: root, ShardTimeout: 3600, MaxCacheSize: -1})
+	timeout := 3600
+	if p.Free {
+		timeout = 0 // the real idle timer fires at once: unloading races with the requests for real
+	}
+	sm := cluster.NewShardManager(cluster.ShardManagerConfig{RootDir: root, ShardTimeout: timeout, MaxCacheSize: -1})
 	vtime.ResetNames()
 	shardPath := func(id string) string {
 		return filepath.Join(root, cluster.USERCOLSDIR, col.UserId, col.Id, id, "sharddb.bbolt")
 	}
 	var outcome []string
+	note := func(s string) {
+		hmu.Lock()
+		outcome = append(outcome, s)
+		hmu.Unlock()
+	}
 	request := func(name, shardId string) {
 		ran := false
 		err := sm.DoWithShard(col, shardId, func(s *shard.Shard) (rerr error) {
@@ -120,9 +134,9 @@ func run(raw json.RawMessage, prefix []string) (*vsched.Trace, []schedlib.V, str
 		})
 		switch {
 		case err == nil && ran:
-			outcome = append(outcome, name+":ok")
+			note(name + ":ok")
 		case err != nil && !ran:
-			outcome = append(outcome, name+":clean-error") // allowed: a clean error before the callback
+			note(name + ":clean-error") // allowed: a clean error before the callback
 		case err != nil && ran:
 			fail("request-error-after-callback", "%s: %v", name, err)
 		default:
@@ -131,6 +145,9 @@ func run(raw json.RawMessage, prefix []string) (*vsched.Trace, []schedlib.V, str
 	}
 	done := 0
 	total := len(p.Threads)
+	if p.Free {
+		return freeRun(p, sm, col, request, fail, &hmu, &done), viols, ""
+	}
 	tr := vsched.Run(vsched.Options{MaxSteps: 600, Patience: 4 * time.Second, Teardown: true}, prefix, func(s *vsched.Sched) {
 		// preloaded shards: loaded by a finished request, idle, timer armed
 		for _, id := range p.Preload {
@@ -152,14 +169,25 @@ func run(raw json.RawMessage, prefix []string) (*vsched.Trace, []schedlib.V, str
 					if _, err := sm.DeleteCollectionShards(col); err != nil {
 						fail("delete-collection-error", "%v", err)
 					}
-					outcome = append(outcome, name+":deleted")
+					note(name + ":deleted")
 				}
+				hmu.Lock()
 				done++
+				hmu.Unlock()
 			})
 		}
 		// afterwards new requests can load shards again
 		s.Go("P", func() {
 			vsched.PointIf("probe-start", func() bool { return done == total })
+			for !vsched.Controlled() { // free-running: wait for the other threads for real
+				hmu.Lock()
+				d := done
+				hmu.Unlock()
+				if d == total {
+					break
+				}
+				time.Sleep(50 * time.Microsecond)
+			}
 			for _, id := range []string{"s1", "s2"} {
 				request("probe", id)
 			}
@@ -179,6 +207,42 @@ func run(raw json.RawMessage, prefix []string) (*vsched.Trace, []schedlib.V, str
 		pool.RequestRecycle()
 	}
 	return tr, viols, strings.Join(outcome, ",")
+}
+
+// freeRun executes the same thread bodies as plain goroutines (no controller:
+// a cooperative scheduler's hand-offs are happens-before edges that would blind
+// the race detector).  Built with -race by the thorough tier's race pass.
+func freeRun(p Program, sm *cluster.ShardManager, col models.Collection, request func(name, shard string), fail func(string, string, ...any), hmu *sync.Mutex, done *int) *vsched.Trace {
+	for _, id := range p.Preload {
+		sm.DoWithShard(col, id, func(*shard.Shard) error { return nil })
+	}
+	var wg sync.WaitGroup
+	for i, th := range p.Threads {
+		i, th := i, th
+		wg.Add(1)
+		go func() {
+			defer wg.Done()
+			name := fmt.Sprintf("T%d", i+1)
+			switch th.Kind {
+			case "req":
+				request(name+".a", th.Shard)
+				if th.Twice {
+					request(name+".b", th.Shard)
+				}
+			case "del":
+				sm.DeleteCollectionShards(col)
+			}
+		}()
+	}
+	finished := make(chan struct{})
+	go func() { wg.Wait(); close(finished) }()
+	select {
+	case <-finished:
+	case <-time.After(20 * time.Second):
+		fail("free-run-hung", "the threads of %+v did not finish within 20 s when run freely", p.Threads)
+	}
+	sm.VerifCloseAllShards()
+	return &vsched.Trace{}
 }
 
 func clipDump(dump, needle string) string {
@@ -216,6 +280,11 @@ func master(cfg *harness.Config, rep *harness.Report) {
 				}
 			}
 		}
+		return
+	}
+	if cfg.Extra["race"] != "" {
+		cfg.NoEvidence = true
+		racePass(cfg, rep)
 		return
 	}
 	req1 := Thread{Kind: "req", Shard: "s1"}
@@ -285,6 +354,7 @@ func master(cfg *harness.Config, rep *harness.Report) {
 		}
 	}
 	rep.Set("phases", phaseInfo)
+	rep.Set("races", schedlib.LoadRaceSummary(cfg.Out, "C12"))
 	rep.States = int64(rep.OutcomeCount())
 	rep.Set("programs", st.Programs)
 	rep.Set("executions", st.Executions)
@@ -298,6 +368,43 @@ func master(cfg *harness.Config, rep *harness.Report) {
 	if len(sigSeen) > 0 {
 		rep.Set("violation_counts", sigSeen)
 	}
+}
+
+// racePass: the same thread bodies free-running under the race detector
+// (binary built with -race by check.sh), many repetitions per program.
+func racePass(cfg *harness.Config, rep *harness.Report) {
+	req1 := Thread{Kind: "req", Shard: "s1"}
+	req1x2 := Thread{Kind: "req", Shard: "s1", Twice: true}
+	req2 := Thread{Kind: "req", Shard: "s2"}
+	del := Thread{Kind: "del"}
+	var programs []any
+	reps := 60
+	progs := 0
+	for _, ts := range [][]Thread{{req1, del}, {req1, req1}, {req1x2, del}, {req1, req2, del}, {req1, del, req1}, {del, del, req1}, {req1x2, req1x2, del, req2}} {
+		for _, pre := range [][]string{nil, {"s1"}} {
+			for _, b := range []bool{false, true} {
+				progs++
+				for r := 0; r < reps; r++ {
+					programs = append(programs, Program{Threads: ts, Backups: b, Preload: pre, Free: true})
+				}
+			}
+		}
+	}
+	old, _ := filepath.Glob(schedlib.RaceLogPrefix() + ".*")
+	for _, f := range old {
+		os.Remove(f)
+	}
+	p := pool.New(pool.Options{CPUsPerWorker: 2, JobTimeout: 120 * time.Second, ExtraEnv: schedlib.RaceEnv()})
+	sigSeen := map[string]int{}
+	st := schedx.Explore(cfg, rep, p, programs, 0, 0, sigSeen)
+	races := schedlib.CollectRaces()
+	path := schedlib.WriteRaceFile(cfg.Out, "C12", progs, int(st.Executions), races)
+	fmt.Printf("C12 race pass: %d programs x %d free-running repetitions under -race, %d distinct data race(s) -> %s\n", progs, reps, len(races), path)
+	for _, r := range races {
+		fmt.Printf("  RACE (diagnostic) x%d: %s\n", r.Count, r.Key)
+	}
+	rep.States = 1
+	rep.Set("race_pass", true)
 }
 
 func main() {
